@@ -866,6 +866,8 @@ pub fn main_c01(tier_name: &str, seed: u64) -> i32 {
             calls.extend(gen::modifier_family(&mut g));
             calls.push(gen::tone_alias_call(&mut g));
             calls.push(gen::env_set_call(&mut g));
+            calls.push(gen::plus_stack_call(&mut g));
+            calls.push(gen::refused_word_call(&mut g));
             calls.push(gen::alt_spelling_call(&mut g));
             calls.push(gen::boundary_alias_call(&mut g));
             calls.extend(gen::deroman_family(&mut g));
